@@ -6,82 +6,100 @@
    [fits k f] : 0 <= |returned text| <= footprint <= k.
 
    What is proved here is the library-helper half of C20 ("helper routines never write beyond the
-   space they reserved") for all argument values.  The statement about all 24 executables on all
-   byte streams is NOT a theorem: it is observed by sanitizer runs (sampling), see checks/C20.py. *)
-From PP Require Import ToStr.ToStringDefs ToStr.ToStringProofs ToStr.ToStringDigits ToStr.ToStringValue ToStr.ToStringHex.
+   space they reserved") for all argument values, for the x86-64/SSE2 branch of integer_to_string.cc
+   (the "#else // Generic Non-x86 case" branch is not compiled on this platform and not modelled).
+   The statement about all 24 executables on all byte streams is NOT a theorem: it is observed by
+   sanitizer runs (sampling), see checks/C20.py.  Hence every theorem name ends in _partial. *)
+From PP Require Import ToStr.ToStringDefs ToStr.ToStringProofs ToStr.ToStringDigits ToStr.ToStringValue ToStr.ToStringHex ToStr.ToolSafety.
 Local Open Scope Z_scope.
 
-(* full statement of the property, kept visible; only the part below it is proved *)
-Definition C20_full_statement : Prop :=
-  (* for every executable, option vector and input byte stream: the run terminates with exit status
-     0 or a diagnosed error, and performs no load/store outside a live object *)
-  False -> True.
+(* FULL statement of the property, over an explicit notion of what a run of an executable can show
+   (ToStr/ToolSafety.v): [m : package_model] maps each of the 24 executables and each invocation
+   (arguments, stdin bytes, file contents) to a run = how it ended (exit 0 / diagnosed error / undiagnosed
+   crash / no termination) + the memory events an instrumented execution reports (out of bounds, use after
+   free, uninitialised use).
+     tools_safe m : every run ends with exit 0 or a diagnosed error and has no memory event
+     helper_half  : formatters and stream classes never write beyond what they reserved
+   The statement is about a FAITHFUL model m of the package.  This development has no such model (only
+   the helpers are modelled), so [tools_safe] is not proved for anything: it is sampled.  What is proved is
+   [helper_half] (theorem C20_helper_half_partial) and the reduction C20_full_from_tools_partial; the
+   individual theorems below (all named _partial: each is a part of this property, none is the property)
+   are its components plus the digit-correctness ("no garbage") theorems. *)
+Definition C20_full_statement (m : package_model) : Prop := tools_safe m /\ helper_half.
+
+Theorem C20_helper_half_partial : helper_half.
+Proof. exact helper_half_proof. Qed.
+Print Assumptions C20_helper_half_partial.
+
+Theorem C20_full_from_tools_partial : forall m : package_model, tools_safe m -> C20_full_statement m.
+Proof. exact full_from_tools_proof. Qed.
+Print Assumptions C20_full_from_tools_partial.
 
 (* (a) integer formatters, every value of every type (including what the vector stores touch
        beyond the returned text) *)
-Theorem C20_u32_fits : forall v, fits kBytes_u32 (fmt_u32 v).
+Theorem C20_u32_fits_partial : forall v, fits kBytes_u32 (fmt_u32 v).
 Proof. exact fmt_u32_fits_proof. Qed.
-Print Assumptions C20_u32_fits.
+Print Assumptions C20_u32_fits_partial.
 
-Theorem C20_u64_fits : forall v, fits kBytes_u64 (fmt_u64 v).
+Theorem C20_u64_fits_partial : forall v, fits kBytes_u64 (fmt_u64 v).
 Proof. exact fmt_u64_fits_proof. Qed.
-Print Assumptions C20_u64_fits.
+Print Assumptions C20_u64_fits_partial.
 
-Theorem C20_i32_fits : forall v, fits kBytes_i32 (fmt_i32 v).
+Theorem C20_i32_fits_partial : forall v, fits kBytes_i32 (fmt_i32 v).
 Proof. exact fmt_i32_fits_proof. Qed.
-Print Assumptions C20_i32_fits.
+Print Assumptions C20_i32_fits_partial.
 
-Theorem C20_i64_fits : forall v, -9223372036854775808 <= v < 9223372036854775808 -> fits kBytes_i64 (fmt_i64 v).
+Theorem C20_i64_fits_partial : forall v, -9223372036854775808 <= v < 9223372036854775808 -> fits kBytes_i64 (fmt_i64 v).
 Proof. exact fmt_i64_fits_proof. Qed.
-Print Assumptions C20_i64_fits.
+Print Assumptions C20_i64_fits_partial.
 
-Theorem C20_u16_fits : forall v, 0 <= v < 65536 -> fits kBytes_u16 (fmt_u16 v).
+Theorem C20_u16_fits_partial : forall v, 0 <= v < 65536 -> fits kBytes_u16 (fmt_u16 v).
 Proof. exact fmt_u16_fits_proof. Qed.
-Print Assumptions C20_u16_fits.
+Print Assumptions C20_u16_fits_partial.
 
-Theorem C20_i16_fits : forall v, -32768 <= v < 32768 -> fits kBytes_i16 (fmt_i16 v).
+Theorem C20_i16_fits_partial : forall v, -32768 <= v < 32768 -> fits kBytes_i16 (fmt_i16 v).
 Proof. exact fmt_i16_fits_proof. Qed.
-Print Assumptions C20_i16_fits.
+Print Assumptions C20_i16_fits_partial.
 
-Theorem C20_ptr_bool_fit : (forall p, fits kBytes_ptr (fmt_ptr p)) /\ (forall b, fits kBytes_bool (fmt_bool b)).
+Theorem C20_ptr_bool_fit_partial : (forall p, fits kBytes_ptr (fmt_ptr p)) /\ (forall b, fits kBytes_bool (fmt_bool b)).
 Proof. exact ptr_bool_fit_proof. Qed.
-Print Assumptions C20_ptr_bool_fit.
+Print Assumptions C20_ptr_bool_fit_partial.
 
 (* (a'') "never uses garbage": the text handed back is EXACTLY the decimal numeral, for every value of
    the 32- and 64-bit types ([dec]: independent specification by repeated division by 10; the proof
    goes through the regenerated digit table, the reciprocal-multiplication constants of
    Convert8DigitsSSE2 and the leading-zero skipping of the 16-byte vector path) *)
-Theorem C20_u32_digits : forall v, 0 <= v < 4294967296 -> f_out (fmt_u32 v) = dec v.
+Theorem C20_u32_digits_partial : forall v, 0 <= v < 4294967296 -> f_out (fmt_u32 v) = dec v.
 Proof. exact fmt_u32_digits_proof. Qed.
-Print Assumptions C20_u32_digits.
+Print Assumptions C20_u32_digits_partial.
 
-Theorem C20_u64_digits : forall v, 0 <= v < 18446744073709551616 -> f_out (fmt_u64 v) = dec v.
+Theorem C20_u64_digits_partial : forall v, 0 <= v < 18446744073709551616 -> f_out (fmt_u64 v) = dec v.
 Proof. exact fmt_u64_digits_proof. Qed.
-Print Assumptions C20_u64_digits.
+Print Assumptions C20_u64_digits_partial.
 
-Theorem C20_i32_i64_digits :
+Theorem C20_i32_i64_digits_partial :
   (forall v, -2147483648 <= v < 2147483648 -> f_out (fmt_i32 v) = dec_signed v) /\
   (forall v, -9223372036854775808 <= v < 9223372036854775808 -> f_out (fmt_i64 v) = dec_signed v).
 Proof. exact i32_i64_digits_proof. Qed.
-Print Assumptions C20_i32_i64_digits.
+Print Assumptions C20_i32_i64_digits_partial.
 
-Theorem C20_16bit_digits :
+Theorem C20_16bit_digits_partial :
   (forall v, 0 <= v < 65536 -> f_out (fmt_u16 v) = dec v) /\
   (forall v, -32768 <= v < 32768 -> f_out (fmt_i16 v) = dec_signed v).
 Proof. exact fmt_16_digits_proof. Qed.
-Print Assumptions C20_16bit_digits.
+Print Assumptions C20_16bit_digits_partial.
 
 (* pointers: text = "0x" + hexadecimal numeral (no leading zeros, "0x0" for null), for every 64-bit value:
    the nibbles obtained by shifting and masking are the base-16 digits; leading zero nibbles are dropped *)
-Theorem C20_ptr_digits : forall p, 0 <= p < 18446744073709551616 -> f_out (fmt_ptr p) = 48 :: 120 :: hexnum p.
+Theorem C20_ptr_digits_partial : forall p, 0 <= p < 18446744073709551616 -> f_out (fmt_ptr p) = 48 :: 120 :: hexnum p.
 Proof. exact fmt_ptr_digits_proof. Qed.
-Print Assumptions C20_ptr_digits.
+Print Assumptions C20_ptr_digits_partial.
 
 (* (d) termination of the only counted loop in the layout code: the 5 slots of the exponent buffer are enough
    and its text is the numeral, for every exponent the source allows (ASSERT(exponent < 1e4)) *)
-Theorem C20_exponent_digits : forall e, 1 <= e < 10000 -> exp_loop 5 e [] = dec e.
+Theorem C20_exponent_digits_partial : forall e, 1 <= e < 10000 -> exp_loop 5 e [] = dec e.
 Proof. exact exp_loop_digits_proof. Qed.
-Print Assumptions C20_exponent_digits.
+Print Assumptions C20_exponent_digits_partial.
 
 (* (a3) the text laid out for a double DENOTES the digits it was given: an independent reader of decimal /
    exponential notation ([read_number]: sign, integer part, '.', fraction, 'e', signed exponent) maps the text of
@@ -89,85 +107,93 @@ Print Assumptions C20_exponent_digits.
    -- for every sign, every digit string of 1..17 digits and every decimal point position of a finite double,
    in all four layouts (0.000ddd, ddd000, dd.ddd, d.ddde-xx).  Together with the digit theorems no layout path emits
    garbage; that the digits denote the double is the digit generator's job (environment). *)
-Theorem C20_double_text_denotes_digits :
+Theorem C20_double_text_denotes_digits_partial :
   forall sign digits dp, digits_ok kBase10MaximalLength digits = true -> -323 <= dp <= 309 ->
   denotes (to_shortest_chars (DFinite sign digits dp)) sign digits dp.
 Proof. exact double_denotes_proof. Qed.
-Print Assumptions C20_double_text_denotes_digits.
+Print Assumptions C20_double_text_denotes_digits_partial.
 
 (* ... and for floats (ToShortestSingle lays out with the same code) *)
-Theorem C20_float_text_denotes_digits :
+Theorem C20_float_text_denotes_digits_partial :
   forall sign digits dp, dvalue_ok_float (DFinite sign digits dp) = true ->
   denotes (to_shortest_chars (DFinite sign digits dp)) sign digits dp.
 Proof. exact float_denotes_proof. Qed.
-Print Assumptions C20_float_text_denotes_digits.
-Print Assumptions C20_double_text_denotes_digits.
+Print Assumptions C20_float_text_denotes_digits_partial.
+Print Assumptions C20_double_text_denotes_digits_partial.
 
 (* (a') double / float: whatever the digit generator delivers within its documented range
         (<= 17 resp. 9 digits, decimal point position of a finite double / float), the text plus
         StringBuilder's terminator fits the reservation *)
-Theorem C20_double_fits : forall d, dvalue_ok_double d = true -> fits kBytes_double (fmt_double d).
+Theorem C20_double_fits_partial : forall d, dvalue_ok_double d = true -> fits kBytes_double (fmt_double d).
 Proof. exact fmt_double_fits_proof. Qed.
-Print Assumptions C20_double_fits.
+Print Assumptions C20_double_fits_partial.
 
-Theorem C20_float_fits : forall d, dvalue_ok_float d = true -> fits kBytes_float (fmt_double d).
+Theorem C20_float_fits_partial : forall d, dvalue_ok_float d = true -> fits kBytes_float (fmt_double d).
 Proof. exact fmt_float_fits_proof. Qed.
-Print Assumptions C20_float_fits.
+Print Assumptions C20_float_fits_partial.
 
 (* the tight bounds: 26 bytes for a double, 23 for a float (both attained, see the Examples) *)
-Theorem C20_double_float_tight :
+Theorem C20_double_float_tight_partial :
   (forall d, dvalue_ok_double d = true -> fits 26 (fmt_double d)) /\ (forall d, dvalue_ok_float d = true -> fits 23 (fmt_double d)).
 Proof. exact double_float_tight_proof. Qed.
-Print Assumptions C20_double_float_tight.
+Print Assumptions C20_double_float_tight_partial.
 
 (* (b) the in-place protocol: for every sequence of stream operations whose numbers respect their
        reservation (a), with reservations <= kmax <= capacity: no store outside the buffer, the
        cursor never passes end_, and the bytes handed to the writer followed by the buffer are
        exactly the bytes of the operations, in order *)
-Theorem C20_stream_cursor_safe :
+Theorem C20_stream_cursor_safe_partial :
   forall cap kmax ops, 1 <= kmax <= cap -> Forall (sop_ok kmax) ops ->
   forall buf, zlen buf <= cap ->
   exists b w, s_run cap buf ops = Some (b, w) /\ zlen b <= cap /\ concat w ++ b = buf ++ flat_map sop_bytes ops.
 Proof. exact stream_safe_proof. Qed.
-Print Assumptions C20_stream_cursor_safe.
+Print Assumptions C20_stream_cursor_safe_partial.
 
 (* (b') the same for ThreadedBufferedStream (shard's outputs), producer side: additionally every block
         handed to the writer thread, including the final one from the destructor, is non-empty
         (an empty block is the poison that stops the writer, so none may be handed over early)
         and at most one block long; nothing is lost or reordered *)
-Theorem C20_threaded_stream_safe :
+Theorem C20_threaded_stream_safe_partial :
   forall cap kmax ops, 1 <= kmax <= cap -> Forall (sop_ok kmax) ops ->
   forall buf, zlen buf <= cap ->
   exists b w, t_run cap buf ops = TOk b w /\ zlen b <= cap /\ concat w ++ b = buf ++ flat_map sop_bytes ops /\
               Forall (block_ok cap) (w ++ t_destroy b) /\ concat (w ++ t_destroy b) = buf ++ flat_map sop_bytes ops.
 Proof. exact t_stream_safe_proof. Qed.
-Print Assumptions C20_threaded_stream_safe.
+Print Assumptions C20_threaded_stream_safe_partial.
 
 (* (b'') util::StringStream (the stream behind every exception message): Ensure makes exactly the
          reserved room; numbers respecting their reservation never store beyond it *)
-Theorem C20_string_stream_safe :
+Theorem C20_string_stream_safe_partial :
   forall kmax ops, Forall (sop_ok kmax) ops -> forall str, ss_run str ops = Some (str ++ flat_map sop_bytes ops).
 Proof. exact ss_run_safe_proof. Qed.
-Print Assumptions C20_string_stream_safe.
+Print Assumptions C20_string_stream_safe_partial.
 
 (* ... and the constants in the headers satisfy the premises: every reservation <= kToStringMaxBytes
    <= the buffer size of BufferedStream and the block size of ThreadedBufferedStream *)
-Theorem C20_reservations_within_buffers :
+Theorem C20_reservations_within_buffers_partial :
   kBytes_bool <= kToStringMaxBytes /\ kBytes_u16 <= kToStringMaxBytes /\ kBytes_i16 <= kToStringMaxBytes /\
   kBytes_u32 <= kToStringMaxBytes /\ kBytes_i32 <= kToStringMaxBytes /\ kBytes_u64 <= kToStringMaxBytes /\
   kBytes_i64 <= kToStringMaxBytes /\ kBytes_ptr <= kToStringMaxBytes /\ kBytes_double <= kToStringMaxBytes /\
   kBytes_float <= kToStringMaxBytes /\ 1 <= kToStringMaxBytes <= stream_cap /\
   kToStringMaxBytes <= Z.max block_queue_min kToStringMaxBytes.
 Proof. exact reservations_within_max. Qed.
-Print Assumptions C20_reservations_within_buffers.
+Print Assumptions C20_reservations_within_buffers_partial.
 
 (* (c) table indices used by the model are inside the generated table *)
-Theorem C20_lut_indices_in_range :
+Theorem C20_lut_indices_in_range_partial :
   forall x, 0 <= x < 100 -> lut_in_range (x * 2) = true /\ lut_in_range (x * 2 + 1) = true.
 Proof. exact lut_indices_in_range. Qed.
-Print Assumptions C20_lut_indices_in_range.
+Print Assumptions C20_lut_indices_in_range_partial.
 
 (* ---- non-vacuity and tightness ---- *)
+
+(* the notion under the full statement is not trivial: memory events, non-termination and undiagnosed crashes violate it *)
+Example C20_nonvacuous_full_statement :
+  ~ tools_safe (fun _ _ => mkRun EndOk [OutOfBounds]) /\
+  ~ tools_safe (fun _ _ => mkRun EndFuel []) /\
+  ~ tools_safe (fun _ _ => mkRun (EndCrash 11) []) /\
+  tools_safe (fun _ _ => mkRun (EndDiagnosed 1) []).
+Proof. exact tools_safe_discriminates. Qed.
 
 (* the bound 26 is attained: -0.000001234567890123456 (17 digits, decimal point at -5) *)
 Example C20_nonvacuous_double_26 :
